@@ -166,9 +166,9 @@ SigJudge(e) ==
            used == IF Has(e, "lens") /\ lensok THEN SubSeq(ents, 1, e.lens[1]) ELSE ents
        IN IF ~keysok THEN <<~o.key_ok, "bad key">>
           ELSE IF ~lensok THEN <<o.key_ok /\ ~o.ok /\ ~o.again, "length mismatch must be Err">>
-          ELSE IF Has(e, "bind") /\ o.zs # <<>> /\ "__zs" \in DOMAIN regs /\ ~(\A i \in 1..Len(o.zs) : i <= Len(regs["__zs"].zs) => o.zs[i] # regs["__zs"].zs[i])
+          ELSE IF Has(e, "bind") /\ Has(o, "zs") /\ o.zs # <<>> /\ "__zs" \in DOMAIN regs /\ ~(\A i \in 1..Len(o.zs) : i <= Len(regs["__zs"].zs) => o.zs[i] # regs["__zs"].zs[i])
                THEN <<FALSE, "batch coefficients are not bound to the input that changed">>
-          ELSE IF o.zs # <<>> /\ ~(ZsOK(o.zs) /\ o.zs = o.zs_again) THEN <<FALSE, "batch coefficients zero / too wide / not deterministic">>
+          ELSE IF Has(o, "zs") /\ o.zs # <<>> /\ ~(ZsOK(o.zs) /\ o.zs = o.zs_again) THEN <<FALSE, "batch coefficients zero / too wide / not deterministic">>
           ELSE IF BatchMustErr(used) THEN <<o.key_ok /\ ~o.ok /\ ~o.again, "must be Err">>
           ELSE IF BatchInDomain(used) THEN
                LET x == BatchAllValid(used) IN <<o.key_ok /\ o.ok = x /\ o.again = x, x>>
